@@ -16,6 +16,7 @@ import (
 
 func CheckC04(run *evid.Run) {
 	nh := pick(run.Tier, 2000, 30000)
+	enableNoise(run.Seed)
 	run.Rule = "every Append of seeded histories (lopsided clocks, forks, shared writers, pointer counts 1..64; a fifth of them 'manyheads': one long chain merged with 7-16 short logs so that there are more heads than the pointer count; every other one with refused operations and forks; a third with CONCURRENT BURSTS - appends || merges || reads on one replica - before the appends that are checked) incl. appends after SetIdentity to another writer and after the log was rebuilt from storage by each loader; snapshot-before / returned entry / snapshot-after compared with the model (next = heads before, clock id = current writer's key, time > every entry held, single head after, refs inside past(next), disjoint from next, duplicate-free, |refs| <= floor(log2 pc)+2, and the appended entry dominates the log: every entry held is in its causal past); non-trivial append = on a log with >=2 heads or holding entries of another writer; distinct = (heads before, entries before, pc, writer-changed, reloaded) class digest"
 	opts := hx.GenOpts{MaxSteps: pick(run.Tier, 45, 80), Orders: []string{"default", "hash", "fww", "revhash"}, Extra: true, Codecs: []string{"cbor", "cbor", "link", "pb"},
 		Shapes: []string{"lopsided", "mixed", "widefork", "diamond", "lopsided", "overlap", "twins", "ring"}}
@@ -190,6 +191,7 @@ func isSubsequence(sub, seq []string) bool {
 
 func CheckC05(run *evid.Run) {
 	nh := pick(run.Tier, 1500, 20000)
+	enableNoise(run.Seed)
 	run.Rule = "seeded histories under every codec configuration (default, link-encrypting, legacy protobuf), every other one with refused operations and forks, a third with concurrent bursts (appends || merges || a reader of Values(): whatever the reader saw, and every entry appended, must still be in the view afterwards); after every step ALL replicas are swept: each hash seen earlier on a replica must still be there with an identical content digest over every field (also through Get), Len never decreases, the previous value sequence is a subsequence of the new one (order only when the ordering is total on the new state, set inclusion always), and a global shadow hash->digest over all log instances detects in-place mutation of entries shared by pointer; non-trivial iff >=2 heads seen and a merge added entries; distinct = final DAG shape digest + codec"
 	opts := hx.GenOpts{MaxSteps: pick(run.Tier, 35, 70), Orders: []string{"default", "hash"}, Codecs: []string{"cbor", "link", "pb", "cbor"}}
 	parallel(nh, func(i int) {
